@@ -2,112 +2,47 @@
    mathematical definition or fail.  Property statements only: each is closed by `exact <lemma>`
    from proofs/NumFnProofs.v and pinned with Print Assumptions.  model/NumFn.v transcribes
    numeric/{gcd,lcm,factorial,round,abs,sign,ceil,floor,trunc}.rs and binary/{bitand,bitor,xor,bitnot,shl,shr}.rs
-   of /repo as they are; widths w are universally quantified (8..128 are instances).
+   of /repo after the fixes 9b10c8448 (gcd, lcm), e09e186b9 (factorial), eb21ac26a (shr), 36f5e65a8
+   (DecimalToDecimal::bind); widths w are universally quantified (8..128 are instances).
+   The statements that were refuted before those fixes are proved at full strength; the definitions the source had
+   before live on with the prefix old_ (model) with their witnesses (section 10) so that a regression is recognised.
    Naming: `_partial` = proved under the stated hypothesis, the full statement is in the comment and
-   is refuted by the `_refuted` / `_deviates` theorem that follows. *)
+   is refuted by the `_refuted` theorem that follows. *)
 From Coq Require Import ZArith List Bool.
 From GV Require Import model.Arith model.Decimal model.NumFn proofs.NumFnProofs gen.TablesNumfn.
 Import ListNotations.
 Open Scope Z_scope.
 
-(* ---- 1. gcd *)
-(* the loop computes the gcd of non-negative operands whenever it returns *)
-Theorem C05num_euclid_is_gcd : forall fuel w a b r, 0 < w -> 0 <= a -> 0 <= b ->
-  euclid fuel w a b = Some r -> r = Ok (Z.gcd a b).
-Proof. exact euclid_gcd. Qed.
-Print Assumptions C05num_euclid_is_gcd.
+(* ---- 0. the theorems about impl_gcd, impl_lcm, impl_factorial, impl_shr, impl_round speak about the current
+   source: vlib/tables_numfn.py finds the repaired variant in all five files *)
+Theorem C05num_src_is_repaired :
+  gcd_native = Some 0 /\ lcm_native = Some 0 /\ factorial_null = Some 0 /\ shr_zero_fill = Some 0 /\ d2d_scale_sub_native = Some 0.
+Proof. exact src_is_repaired. Qed.
+Print Assumptions C05num_src_is_repaired.
 
-(* termination argument: |b| at least halves every two iterations, so 2w + 1 iterations suffice for
-   w-bit operands -- for every input, including the type minimum in release builds *)
-Theorem C05num_gcd_terminates : forall m w a b, 0 < w -> in_range Signed w a = true -> in_range Signed w b = true ->
-  impl_gcd m w a b <> None.
-Proof. exact gcd_terminates. Qed.
-Print Assumptions C05num_gcd_terminates.
+(* ---- 1. gcd, lcm: the greatest common divisor / least common multiple, or an error when it is 2^(w-1) or more;
+   Euclid runs on fuel 2w + 1 (|b| at least halves every two iterations), which always suffices: the result is Some *)
+Theorem C05num_gcd_correct : forall w a b, 0 < w -> in_range Signed w a = true -> in_range Signed w b = true ->
+  impl_gcd w a b = Some (spec_gcd w a b).
+Proof. exact gcd_correct. Qed.
+Print Assumptions C05num_gcd_correct.
 
-(* full statement (refuted at the type minimum, C05num_gcd_refuted):
-     forall m w a b, 0 < w -> in_range Signed w a = true -> in_range Signed w b = true ->
-       impl_gcd m w a b = Some (spec_gcd w a b) *)
-Theorem C05num_gcd_correct_partial : forall m w a b, 0 < w ->
-  in_range Signed w a = true -> in_range Signed w b = true -> a <> lo Signed w -> b <> lo Signed w ->
-  impl_gcd m w a b = Some (spec_gcd w a b).
-Proof. exact gcd_correct_partial. Qed.
-Print Assumptions C05num_gcd_correct_partial.
+Theorem C05num_lcm_correct : forall w a b, 0 < w -> in_range Signed w a = true -> in_range Signed w b = true ->
+  impl_lcm w a b = Some (spec_lcm w a b).
+Proof. exact lcm_correct. Qed.
+Print Assumptions C05num_lcm_correct.
 
-Theorem C05num_gcd_min_panics_debug : forall w b, 0 < w ->
-  impl_gcd Debug w (lo Signed w) b = Some Panic /\ impl_gcd Debug w b (lo Signed w) <> Some (spec_gcd w b (lo Signed w)).
-Proof. exact gcd_min_panics_debug. Qed.
-Print Assumptions C05num_gcd_min_panics_debug.
-
-Theorem C05num_gcd_refuted :
-  impl_gcd Debug 8 (-128) 6 = Some Panic /\ impl_gcd Release 8 (-128) 6 = Some (Ok (-2)) /\ spec_gcd 8 (-128) 6 = Ok 2 /\
-  impl_gcd Release 8 (-128) (-128) = Some (Ok (-128)) /\ spec_gcd 8 (-128) (-128) = Err /\
-  impl_gcd Release 64 (- 2 ^ 63) 0 = Some (Ok (- 2 ^ 63)) /\ spec_gcd 64 (- 2 ^ 63) 0 = Err.
-Proof. exact gcd_refuted. Qed.
-Print Assumptions C05num_gcd_refuted.
-
-(* ---- 2. lcm *)
-Theorem C05num_lcm_terminates : forall m w a b, 0 < w -> in_range Signed w a = true -> in_range Signed w b = true ->
-  impl_lcm m w a b <> None.
-Proof. exact lcm_terminates. Qed.
-Print Assumptions C05num_lcm_terminates.
-
-(* full statement (refuted: C05num_lcm_unrepresentable_deviates, C05num_lcm_refuted):
-     forall m w a b, 0 < w -> in_range Signed w a = true -> in_range Signed w b = true ->
-       impl_lcm m w a b = Some (spec_lcm w a b) *)
-Theorem C05num_lcm_correct_partial : forall m w a b, 0 < w ->
-  in_range Signed w a = true -> in_range Signed w b = true -> a <> lo Signed w -> b <> lo Signed w ->
-  in_range Signed w (Z.lcm a b) = true ->
-  impl_lcm m w a b = Some (spec_lcm w a b).
-Proof. exact lcm_correct_partial. Qed.
-Print Assumptions C05num_lcm_correct_partial.
-
-(* every unrepresentable least common multiple: a panic (overflow checks) or a wrapped, wrong value *)
-Theorem C05num_lcm_unrepresentable_deviates : forall m w a b, 0 < w ->
-  in_range Signed w a = true -> in_range Signed w b = true -> a <> lo Signed w -> b <> lo Signed w ->
-  in_range Signed w (Z.lcm a b) = false ->
-  spec_lcm w a b = Err /\
-  impl_lcm m w a b = Some (match m with Debug => Panic | Release => Ok (wrap Signed w (Z.lcm a b)) end) /\
-  wrap Signed w (Z.lcm a b) <> Z.lcm a b.
-Proof. exact lcm_unrepresentable_deviates. Qed.
-Print Assumptions C05num_lcm_unrepresentable_deviates.
-
-Theorem C05num_lcm_refuted :
-  impl_lcm Debug 8 127 126 = Some Panic /\ impl_lcm Release 8 127 126 = Some (Ok (-126)) /\ spec_lcm 8 127 126 = Err /\
-  impl_lcm Debug 8 (-128) 1 = Some Panic /\ impl_lcm Release 8 (-128) 1 = Some (Ok (-128)) /\ spec_lcm 8 (-128) 1 = Err /\
-  impl_lcm Release 8 (-128) 127 = Some Panic /\
-  impl_lcm Release 64 (2 ^ 62) 3 = Some (Ok (- 2 ^ 62)) /\ spec_lcm 64 (2 ^ 62) 3 = Err.
-Proof. exact lcm_refuted. Qed.
-Print Assumptions C05num_lcm_refuted.
-
-(* ---- 3. factorial (Int64 -> Int128) *)
-Theorem C05num_factorial_characterised : forall n,
-  impl_factorial n = Some (Ok (if (0 <=? n) && in_range Signed 128 (zf n) then Some (zf n) else None)).
-Proof. exact factorial_characterised. Qed.
-Print Assumptions C05num_factorial_characterised.
-
-(* full statement (refuted: C05num_factorial_null_where_undefined):
-     forall n, impl_factorial n = Some (spec_factorial n) *)
-Theorem C05num_factorial_correct_partial : forall n v, spec_factorial n = Ok v -> impl_factorial n = Some (Ok v).
-Proof. exact factorial_correct_partial. Qed.
-Print Assumptions C05num_factorial_correct_partial.
-
-Theorem C05num_factorial_null_where_undefined : forall n, spec_factorial n = Err -> impl_factorial n = Some (Ok None).
-Proof. exact factorial_null_where_undefined. Qed.
-Print Assumptions C05num_factorial_null_where_undefined.
-
-Theorem C05num_factorial_refuted :
-  impl_factorial (-1) = Some (Ok None) /\ spec_factorial (-1) = Err /\
-  impl_factorial 34 = Some (Ok None) /\ spec_factorial 34 = Err /\
-  impl_factorial 33 = Some (Ok (Some 8683317618811886495518194401280000000)).
-Proof. exact factorial_refuted. Qed.
-Print Assumptions C05num_factorial_refuted.
+(* ---- 2. factorial (Int64 -> Int128): n!, an error for n < 0 and when n! does not fit *)
+Theorem C05num_factorial_correct : forall n, impl_factorial n = Some (spec_factorial n).
+Proof. exact factorial_correct. Qed.
+Print Assumptions C05num_factorial_correct.
 
 (* the definition evaluated by the driver is the definition *)
 Theorem C05num_factorial_spec_exec : forall n, spec_factorial_exec n = spec_factorial n.
 Proof. exact spec_factorial_exec_eq. Qed.
 Print Assumptions C05num_factorial_spec_exec.
 
-(* ---- 4. & | xor ~ : the operation on the w-bit two's-complement patterns is Z.land / Z.lor / Z.lxor /
+(* ---- 3. & | xor ~ : the operation on the w-bit two's-complement patterns is Z.land / Z.lor / Z.lxor /
    Z.lnot on the values, for every width and both signednesses *)
 Theorem C05num_bitand_correct : forall sg w a b, 0 < w -> in_range sg w a = true -> in_range sg w b = true ->
   impl_bitand sg w a b = spec_bitand sg w a b /\ in_range sg w (Z.land a b) = true.
@@ -131,7 +66,8 @@ Theorem C05num_bitnot_correct : forall sg w a, 0 < w -> in_range sg w a = true -
 Proof. exact bitnot_correct. Qed.
 Print Assumptions C05num_bitnot_correct.
 
-(* ---- 5. shifts (count: Int32) *)
+(* ---- 4. shifts (count: Int32): a << b = the low w bits of a * 2^b, a >> b = floor (a / 2^b) for every b >= 0;
+   a negative count gives 0 (definitional choice, docs silent) *)
 Theorem C05num_shl_correct : forall sg w a b, 0 < w <= 2 ^ 31 -> in_range Signed 32 b = true ->
   impl_shl sg w a b = spec_shl sg w a b.
 Proof. exact shl_correct. Qed.
@@ -141,20 +77,10 @@ Theorem C05num_shl_in_range : forall sg w a b v, 0 < w -> impl_shl sg w a b = Ok
 Proof. exact shl_in_range. Qed.
 Print Assumptions C05num_shl_in_range.
 
-(* full statement (refuted: C05num_shr_overshift_negative):
-     forall sg w a b, 0 < w <= 2 ^ 31 -> in_range Signed 32 b = true -> in_range sg w a = true ->
-       impl_shr sg w a b = spec_shr sg w a b *)
-Theorem C05num_shr_correct_partial : forall sg w a b, 0 < w <= 2 ^ 31 -> in_range Signed 32 b = true ->
-  in_range sg w a = true -> (b < w \/ 0 <= a) ->
-  impl_shr sg w a b = spec_shr sg w a b.
-Proof. exact shr_correct_partial. Qed.
-Print Assumptions C05num_shr_correct_partial.
-
-Theorem C05num_shr_overshift_negative : forall w a b, 0 < w <= 2 ^ 31 -> in_range Signed 32 b = true ->
-  in_range Signed w a = true -> a < 0 -> w <= b ->
-  impl_shr Signed w a b = Ok 0 /\ spec_shr Signed w a b = Ok (-1).
-Proof. exact shr_overshift_negative. Qed.
-Print Assumptions C05num_shr_overshift_negative.
+Theorem C05num_shr_correct : forall sg w a b, 0 < w <= 2 ^ 31 -> in_range Signed 32 b = true ->
+  in_range sg w a = true -> impl_shr sg w a b = spec_shr sg w a b.
+Proof. exact shr_correct. Qed.
+Print Assumptions C05num_shr_correct.
 
 Theorem C05num_shr_in_range : forall sg w a b v, 0 < w -> in_range sg w a = true -> impl_shr sg w a b = Ok v ->
   in_range sg w v = true.
@@ -170,13 +96,7 @@ Theorem C05num_shr_spec_exec : forall sg w a b, 0 < w -> in_range sg w a = true 
 Proof. exact spec_shr_exec_eq. Qed.
 Print Assumptions C05num_shr_spec_exec.
 
-Theorem C05num_shift_witnesses :
-  impl_shr Signed 8 (-1) 8 = Ok 0 /\ spec_shr Signed 8 (-1) 8 = Ok (-1) /\ impl_shr Signed 8 (-1) 7 = Ok (-1) /\
-  impl_shl Signed 8 1 7 = Ok (-128) /\ impl_shl Signed 8 1 8 = Ok 0 /\ impl_shl Signed 32 1 (-1) = Ok 0 /\
-  impl_shr Signed 32 (-8) (-1) = Ok 0.
-Proof. exact shift_witnesses. Qed.
-Print Assumptions C05num_shift_witnesses.
-
+(* ---- 5. round(decimal(p,s), n) *)
 (* ---- 6. round(decimal(p,s), n) *)
 (* the definition: a nearest multiple of 10^(s - min n s), ties away from zero *)
 Theorem C05num_round_spec_is_nearest_half_away : forall v d, 0 < d ->
@@ -184,23 +104,27 @@ Theorem C05num_round_spec_is_nearest_half_away : forall v d, 0 < d ->
 Proof. exact rha_nearest. Qed.
 Print Assumptions C05num_round_spec_is_nearest_half_away.
 
-(* full statement (refuted: C05num_round_refuted):
-     forall m kd p s n v, 0 <= p <= maxp kd -> -128 <= s <= 127 -> Z.abs v < 10 ^ p ->
-       impl_round m kd p s n v = spec_round p s n v *)
-Theorem C05num_round_correct_partial : forall m kd p s n v, 0 <= p <= maxp kd -> -128 <= s ->
+Theorem C05num_round_never_panics : forall kd p s n v, impl_round kd p s n v <> Panic.
+Proof. exact round_never_panics. Qed.
+Print Assumptions C05num_round_never_panics.
+
+(* full statement (refuted: C05num_round_refuted -- an error although the rounded value is representable):
+     forall kd p s n v, 0 <= p <= maxp kd -> -128 <= s <= 127 -> Z.abs v < 10 ^ p ->
+       impl_round kd p s n v = spec_round p s n v *)
+Theorem C05num_round_correct_partial : forall kd p s n v, 0 <= p <= maxp kd -> -128 <= s ->
   in_range Signed 8 n = true -> s - Z.min n s <= maxp kd -> Z.abs v < 10 ^ p ->
-  impl_round m kd p s n v = spec_round p s n v.
+  impl_round kd p s n v = spec_round p s n v.
 Proof. exact round_correct_partial. Qed.
 Print Assumptions C05num_round_correct_partial.
 
 Theorem C05num_round_refuted :
-  impl_round Debug D64 10 4 (-128) 1 = Panic /\ impl_round Release D64 10 4 (-128) 1 = Err /\
-  spec_round 10 4 (-128) 1 = Ok (-128, 0) /\
-  impl_round Debug D64 18 18 (-1) 5 = Err /\ spec_round 18 18 (-1) 5 = Ok (-1, 0) /\
-  impl_round Debug D64 10 4 128 1 = Err /\ spec_round 10 4 128 1 = Ok (4, 1).
+  impl_round D64 18 18 (-1) 5 = Err /\ spec_round 18 18 (-1) 5 = Ok (-1, 0) /\
+  impl_round D64 10 4 128 1 = Err /\ spec_round 10 4 128 1 = Ok (4, 1) /\
+  impl_round D64 10 4 (-128) 1 = Err /\ spec_round 10 4 (-128) 1 = Ok (-128, 0).
 Proof. exact round_refuted. Qed.
 Print Assumptions C05num_round_refuted.
 
+(* ---- 6. abs sign ceil floor trunc round on integers / decimals go through Float64 *)
 (* ---- 7. abs sign ceil floor trunc round on integers / decimals go through Float64 *)
 (* full statement (refuted: C05num_int_fn_refuted):  forall op a, impl_int_fn op a = spec_int_fn op a *)
 Theorem C05num_int_fn_exact_partial : forall op a, Z.abs a <= 2 ^ 53 -> impl_int_fn op a = spec_int_fn op a.
@@ -239,36 +163,14 @@ Theorem C05num_cmp_spec_reflects : forall a b,
 Proof. exact spec_cmp_reflects. Qed.
 Print Assumptions C05num_cmp_spec_reflects.
 
-(* ---- 9. the repaired variants (model/NumFn.v impl_*_c: checked operations, an unrepresentable result is an
-   error, an over-long right shift keeps the sign): the full statements hold, for every width and every input *)
-Theorem C05num_gcd_repaired_correct : forall w a b, 0 < w -> in_range Signed w a = true -> in_range Signed w b = true ->
-  impl_gcd_c w a b = Some (spec_gcd w a b).
-Proof. exact gcd_c_correct. Qed.
-Print Assumptions C05num_gcd_repaired_correct.
-
-Theorem C05num_lcm_repaired_correct : forall w a b, 0 < w -> in_range Signed w a = true -> in_range Signed w b = true ->
-  impl_lcm_c w a b = Some (spec_lcm w a b).
-Proof. exact lcm_c_correct. Qed.
-Print Assumptions C05num_lcm_repaired_correct.
-
-Theorem C05num_factorial_repaired_correct : forall n, impl_factorial_c n = Some (spec_factorial n).
-Proof. exact factorial_c_correct. Qed.
-Print Assumptions C05num_factorial_repaired_correct.
-
-Theorem C05num_shr_repaired_correct : forall sg w a b, 0 < w <= 2 ^ 31 -> in_range Signed 32 b = true ->
-  in_range sg w a = true -> impl_shr_c sg w a b = spec_shr sg w a b.
-Proof. exact shr_c_correct. Qed.
-Print Assumptions C05num_shr_repaired_correct.
-
-Theorem C05num_round_repaired_never_panics : forall kd p s n v, impl_round_c kd p s n v <> Panic.
-Proof. exact round_c_never_panics. Qed.
-Print Assumptions C05num_round_repaired_never_panics.
-
-Theorem C05num_round_repaired_correct_partial : forall kd p s n v, 0 <= p <= maxp kd -> -128 <= s ->
-  in_range Signed 8 n = true -> s - Z.min n s <= maxp kd -> Z.abs v < 10 ^ p ->
-  impl_round_c kd p s n v = spec_round p s n v.
-Proof. exact round_c_correct_partial. Qed.
-Print Assumptions C05num_round_repaired_correct_partial.
+(* ---- 8. the repaired functions on the former witnesses *)
+Theorem C05num_current_witnesses :
+  impl_gcd 8 (-128) 6 = Some (Ok 2) /\ impl_gcd 8 (-128) (-128) = Some Err /\ impl_gcd 64 (- 2 ^ 63) 0 = Some Err /\
+  impl_lcm 8 127 126 = Some Err /\ impl_lcm 8 (-128) 127 = Some Err /\ impl_lcm 8 (-64) (-1) = Some (Ok 64) /\
+  impl_factorial (-1) = Some Err /\ impl_factorial 34 = Some Err /\
+  impl_shr Signed 8 (-1) 8 = Ok (-1) /\ impl_shr Unsigned 8 200 8 = Ok 0 /\ impl_shr Signed 32 (-8) (-1) = Ok 0.
+Proof. exact current_witnesses. Qed.
+Print Assumptions C05num_current_witnesses.
 
 (* the source has, for each of the five files, one of the two transcribed variants (vlib/tables_numfn.py);
    the driver compares the engine with that one *)
@@ -277,3 +179,59 @@ Theorem C05num_src_variants_known : exists g l f s r,
   d2d_scale_sub_native = Some r /\ In g [0; 1] /\ In l [0; 1] /\ In f [0; 1] /\ In s [0; 1] /\ In r [0; 1].
 Proof. exact src_variants_known. Qed.
 Print Assumptions C05num_src_variants_known.
+
+(* ---- 10. regression witnesses: what the definitions the source had before those fixes (prefix old_) did *)
+Theorem C05num_old_gcd_min_panics_debug : forall w b, 0 < w ->
+  old_impl_gcd Debug w (lo Signed w) b = Some Panic /\ old_impl_gcd Debug w b (lo Signed w) <> Some (spec_gcd w b (lo Signed w)).
+Proof. exact old_gcd_min_panics_debug. Qed.
+Print Assumptions C05num_old_gcd_min_panics_debug.
+
+Theorem C05num_old_gcd_refuted :
+  old_impl_gcd Debug 8 (-128) 6 = Some Panic /\ old_impl_gcd Release 8 (-128) 6 = Some (Ok (-2)) /\ spec_gcd 8 (-128) 6 = Ok 2 /\
+  old_impl_gcd Release 8 (-128) (-128) = Some (Ok (-128)) /\ spec_gcd 8 (-128) (-128) = Err /\
+  old_impl_gcd Release 64 (- 2 ^ 63) 0 = Some (Ok (- 2 ^ 63)) /\ spec_gcd 64 (- 2 ^ 63) 0 = Err.
+Proof. exact old_gcd_refuted. Qed.
+Print Assumptions C05num_old_gcd_refuted.
+
+Theorem C05num_old_lcm_unrepresentable_deviates : forall m w a b, 0 < w ->
+  in_range Signed w a = true -> in_range Signed w b = true -> a <> lo Signed w -> b <> lo Signed w ->
+  in_range Signed w (Z.lcm a b) = false ->
+  spec_lcm w a b = Err /\
+  old_impl_lcm m w a b = Some (match m with Debug => Panic | Release => Ok (wrap Signed w (Z.lcm a b)) end) /\
+  wrap Signed w (Z.lcm a b) <> Z.lcm a b.
+Proof. exact old_lcm_unrepresentable_deviates. Qed.
+Print Assumptions C05num_old_lcm_unrepresentable_deviates.
+
+Theorem C05num_old_lcm_refuted :
+  old_impl_lcm Debug 8 127 126 = Some Panic /\ old_impl_lcm Release 8 127 126 = Some (Ok (-126)) /\ spec_lcm 8 127 126 = Err /\
+  old_impl_lcm Debug 8 (-128) 1 = Some Panic /\ old_impl_lcm Release 8 (-128) 1 = Some (Ok (-128)) /\ spec_lcm 8 (-128) 1 = Err /\
+  old_impl_lcm Release 8 (-128) 127 = Some Panic /\
+  old_impl_lcm Release 64 (2 ^ 62) 3 = Some (Ok (- 2 ^ 62)) /\ spec_lcm 64 (2 ^ 62) 3 = Err.
+Proof. exact old_lcm_refuted. Qed.
+Print Assumptions C05num_old_lcm_refuted.
+
+Theorem C05num_old_factorial_null_where_undefined : forall n, spec_factorial n = Err -> old_impl_factorial n = Some (Ok None).
+Proof. exact old_factorial_null_where_undefined. Qed.
+Print Assumptions C05num_old_factorial_null_where_undefined.
+
+Theorem C05num_old_factorial_refuted :
+  old_impl_factorial (-1) = Some (Ok None) /\ spec_factorial (-1) = Err /\
+  old_impl_factorial 34 = Some (Ok None) /\ spec_factorial 34 = Err /\
+  old_impl_factorial 33 = Some (Ok (Some 8683317618811886495518194401280000000)).
+Proof. exact old_factorial_refuted. Qed.
+Print Assumptions C05num_old_factorial_refuted.
+
+Theorem C05num_old_shr_overshift_negative : forall w a b, 0 < w <= 2 ^ 31 -> in_range Signed 32 b = true ->
+  in_range Signed w a = true -> a < 0 -> w <= b ->
+  old_impl_shr Signed w a b = Ok 0 /\ spec_shr Signed w a b = Ok (-1).
+Proof. exact old_shr_overshift_negative. Qed.
+Print Assumptions C05num_old_shr_overshift_negative.
+
+Theorem C05num_old_round_refuted :
+  old_impl_round Debug D64 10 4 (-128) 1 = Panic /\ old_impl_round Release D64 10 4 (-128) 1 = Err /\
+  spec_round 10 4 (-128) 1 = Ok (-128, 0) /\
+  old_impl_round Debug D64 18 18 (-1) 5 = Err /\ spec_round 18 18 (-1) 5 = Ok (-1, 0) /\
+  old_impl_round Debug D64 10 4 128 1 = Err /\ spec_round 10 4 128 1 = Ok (4, 1).
+Proof. exact old_round_refuted. Qed.
+Print Assumptions C05num_old_round_refuted.
+
